@@ -43,7 +43,7 @@ def _worker(args: Tuple[int, int, int]) -> Dict[str, Any]:
         r = H.run_harness(hdef, idx, make_reg, check_timeout_ms=check_ms, branch_timeout_ms=branch_ms)
     except BaseException:
         return {'i': i, 'error': 'crash: ' + traceback.format_exc(), 'error_kind': 'crash', 'obligations': [], 'paths': 0, 'cut': 0, 'seconds': 0.0,
-                'functions': {}, 'stubs': [], 'inlined': [], 'havoc': [], 'covers': {}, 'models': []}
+                'functions': {}, 'stubs': [], 'inlined': [], 'havoc': [], 'covers': {}, 'models': [], 'uncovered': {}, 'stmt_total': {}}
     obs = []
     for ob in r.obligations:
         obs.append({
@@ -53,7 +53,7 @@ def _worker(args: Tuple[int, int, int]) -> Dict[str, Any]:
         })
     return {'i': i, 'error': r.error, 'error_kind': r.error_kind, 'obligations': obs, 'paths': r.paths, 'cut': r.cut_paths,
             'seconds': r.seconds, 'functions': r.functions, 'stubs': r.stubs_used, 'inlined': r.inlined, 'havoc': r.havoc,
-            'covers': r.covers, 'models': r.models_used}
+            'covers': r.covers, 'models': r.models_used, 'uncovered': r.uncovered, 'stmt_total': getattr(r, 'stmt_total', {})}
 
 
 def _solve_worker(args: Tuple[int, str, float]) -> Tuple[int, str, str, float, str]:
@@ -389,6 +389,15 @@ def _write_evidence(prop: str, tier: str, seed: int, entry: Dict[str, Any], mods
             st[ob['status']] = st.get(ob['status'], 0) + 1
         per_h.append({'harness': hs[r['i']][0].id if hs else '?', 'paths': r['paths'], 'cut_paths': r['cut'], 'obligations': len(r['obligations']),
                       'by_status': st, 'seconds': round(r['seconds'], 2), 'error': r['error']})
+    # statement coverage of the functions executed symbolically (union over harnesses): statements never executed on any path
+    # are unverified text inside a function under contract
+    unc: Dict[str, set] = {}
+    tot: Dict[str, int] = {}
+    for r in results:
+        for k, lines in r.get('uncovered', {}).items():
+            unc[k] = set(lines) if k not in unc else (unc[k] & set(lines))
+        tot.update(r.get('stmt_total', {}))
+    stmt_cov_report = {k: {'statements': tot.get(k, 0), 'never_executed_lines': sorted(v)} for k, v in sorted(unc.items())}
     by_backend: Dict[str, Dict[str, Any]] = {}
     for ob in allobs:
         if ob['status'] == 'discharged':
@@ -442,6 +451,8 @@ def _write_evidence(prop: str, tier: str, seed: int, entry: Dict[str, Any], mods
         'checker_errors': [list(e) for e in (errors or [])] + ([['setup', error, 'crash']] if error else []),
         'vacuity': vac or [],
         'kill_matrix': kills or [],
+        'statement_coverage_of_executed_functions': stmt_cov_report,
+        'statements_never_executed': sum(len(x['never_executed_lines']) for x in stmt_cov_report.values()),
         'explanation': entry.get('explanation', ''),
         # generic keys as well (accepted fallback of the schema)
         'evaluations': max(1, n_ob + sum(int(b.get('cases', 0)) for b in bounded)),
